@@ -298,7 +298,9 @@ def declarative_case(draw):
         if draw(st.booleans()):
             opts['deg'] = draw(st.booleans())
     if kind == 'complex@w':
-        opts['w'] = draw(st.sampled_from([1.0, 50.0, 1000.0, 0.0]))
+        # the analysed frequency is mostly that of a source of the description (else every label is 0)
+        ws = sorted({e['w'] for e in base['desc']['elements'] if isinstance(e.get('w'), (int, float))})
+        opts['w'] = draw(st.sampled_from((ws or [50.0]) * 3 + [1.0, 0.0, 2.5]))
     return {'desc': base['desc'], 'kind': kind, 'opts': opts, 'real_name': draw(st.sampled_from(['dc', 'real'])),
             'reverse': draw(st.lists(st.booleans(), min_size=1, max_size=4))}
 
